@@ -453,7 +453,9 @@ func readInt(n int, b []byte) ([]byte, uint64, error) {
 	nn := uint64(0)
 
 	for i := 1; i < len(b); i++ {
-		if shift := (i - 1) * 7; shift >= 64 {
+		// Nine continuation octets carry 63 bits. A tenth would be shifted
+		// (partly) out of the uint64 and the prefix added below could wrap.
+		if shift := (i - 1) * 7; shift >= 63 {
 			return b, 0, ErrIntOverflow
 		} else {
 			nn |= uint64(b[i]&127) << shift
